@@ -43,6 +43,9 @@ func runGCPrograms(progs []*program) ([]string, error) {
 	if err := os.WriteFile(file, []byte(b.String()), 0o644); err != nil {
 		return nil, err
 	}
+	if keep := os.Getenv("C01_DEV_KEEP"); keep != "" {
+		os.WriteFile(keep, []byte(b.String()), 0o644)
+	}
 	ctx, cancel := context.WithTimeout(context.Background(), 5*time.Minute)
 	defer cancel()
 	cmd := exec.CommandContext(ctx, "go", "run", file)
